@@ -156,7 +156,9 @@ def plan(tier, seed):
                          'mode': 'full', 'bound': 1, 'weight': 6000})
     # two threads deciding on ONE parsed tree (one enforcer, one rule)
     for i in range(len(S9_SHARED)):
-        if tier == 'quick' and i % 2:
+        # quick: every other caller pair, plus the pair in which both
+        # callers are decided by the LAST member of the node
+        if tier == 'quick' and i % 2 and i % 6 != 1:
             continue
         for first in 'AB':
             jobs.append({'space': 'S9', 'pair': i, 'first': first,
